@@ -42,7 +42,7 @@ theorem toItems_WF {f : Forest} (hf : f.WF) : ∀ it ∈ f.toItems, it.WF := by
 def sylLt (a b : Item) : Bool := decide (a.syl < b.syl)
 
 theorem kidsOf_eq (l : Option (List Phrase)) (sub : Forest) :
-    kidsOf l sub = (match l with | some ps => [Item.leaf ps] | none => []) ++ sortBy sylLt sub.toItems := rfl
+    kidsOf l sub = leafItem l ++ sortBy sylLt sub.toItems := rfl
 
 theorem kidsOf_WF {l : Option (List Phrase)} {sub : Forest} (hl : LeafOK l) (hs : sub.WF) :
     ∀ it ∈ kidsOf l sub, it.WF := by
@@ -51,7 +51,7 @@ theorem kidsOf_WF {l : Option (List Phrase)} {sub : Forest} (hl : LeafOK l) (hs 
   rcases h with h | h
   · cases l with
     | none => cases h
-    | some ps => simp at h; subst h; exact hl ps rfl
+    | some ps => simp [leafItem] at h; subst h; exact hl ps rfl
   · exact toItems_WF hs it (mem_sortBy.mp h)
 
 theorem Item.Pre.kids {s : Nat} {l : Option (List Phrase)} {sub : Forest} (h : (Item.node s l sub).Pre) :
@@ -213,10 +213,10 @@ theorem qsize_kidsOf (l : Option (List Phrase)) (sub : Forest) :
     rw [← qsize_toItems]
     exact ((sortBy_perm sylLt sub.toItems).map Item.size).sum_nat
   cases l with
-  | none => simpa [qsize] using hp
+  | none => simpa [qsize, leafItem] using hp
   | some ps =>
     simp only [qsize, List.map_append, List.sum_append] at hp ⊢
-    simp [Item.size, hp]
+    simp [leafItem, Item.size, hp]
 
 theorem qsize_append (a b : List Item) : qsize (a ++ b) = qsize a + qsize b := by
   simp [qsize]
@@ -250,7 +250,7 @@ theorem kidsOf_Fits {l : Option (List Phrase)} {sub : Forest} (hl : LeafFits l) 
   rcases h with h | h
   · cases l with
     | none => cases h
-    | some ps => simp at h; subst h; exact hl ps rfl
+    | some ps => simp [leafItem] at h; subst h; exact hl ps rfl
   · exact toItems_Fits hs it (mem_sortBy.mp h)
 
 /-- with enough fuel the loop fails only on a limit -/
